@@ -68,9 +68,9 @@ def configs(pid, quick):
     if pid == "C25":
         if quick:
             # one subject host (it can fail, flap, refuse, be removed); NEW_NODE / on_add: recorded runs and thorough tier
-            return [("remote", C({3}, {3}, events=2, env={"fail", "status", "mode", "remote"})),
+            return [("1host", C({2}, {2}, events=2, env={"fail", "status", "mode", "topo"})),
                     ("readd", C({2}, {2}, events=3, env={"mode", "topo", "readd"})),
-                    ("1host", C({2}, {2}, events=2, env={"fail", "status", "mode", "topo"}))]
+                    ("remote", C({3}, {3}, events=2, env={"fail", "status", "mode", "remote"}))]
         # small graphs first: what they leave of the replay budget goes to the large ones
         return [("2sessions-fine", C({2}, {2}, sessions={1, 2}, events=1, env={"fail", "status", "mode"}, fine=True)),
                 ("remote", C({3}, {3}, events=3, env={"fail", "status", "mode", "remote"})),
@@ -358,7 +358,7 @@ def run(ctx, pid):
         all_edges = set((s, d) for s, d, _ in edges)
         covered = set()
         left = len(cfgs) - gi
-        t_end = time.time() + max(8.0 if quick else 45.0, (deadline - time.time()) / left)
+        t_end = time.time() + max(14.0 if quick else 45.0, (deadline - time.time()) / left)
         done = 0
         for w in walks:
             if time.time() > t_end:
